@@ -14,7 +14,7 @@
 
   Against `C02_decision_agree_single_point` (abstract `pe : Net → ProjEq (Problem K)`, `(pe net).prob.C = 1`, `hdim`,
   `hq`, `hnd` hypotheses): `pe` is the executed model, the covariance is general, `hdim` and `hq` are theorems.
-  What remains: `WorldHyp` for both algorithms (per configuration: `NoAlias`, invertible covariance, `m0 ≠ 0`, rank
+  What remains: `WorldHyp` for both algorithms (per configuration: `RowsOK` — a theorem for `project_equations()` output, `C01_pe_rowsOK` —, invertible covariance, `m0 ≠ 0`, rank
   decisions unambiguous), `DirFromStation base`, and the genuine condition `hone`.
 -/
 import Gama.Lemmas.C20ObsNet
